@@ -174,7 +174,9 @@ def check_names(chk, prog, env, thorough=False):
                             'jwt_str_alg(%r) = %s: a near-miss of an algorithm name must map to JWT_ALG_INVAL'
                             % (nm, sorted(map(str, to_alg.get(nm) or [])))))
     n += 1
-    foreign = sorted(c for c in callees if c not in ('jwt_str_alg', 'jwt_strcmp', 'strcmp', 'strlen'))
+    # library comparers that are by definition not a full-string exact compare (the behaviour itself is decided by the tables above)
+    foreign = sorted(c for c in callees if c in ('strncmp', 'strcasecmp', 'strncasecmp', 'memcmp', 'strstr', 'strcasestr', 'strcoll',
+                                                  'strchr', 'strpbrk', 'strspn', 'fnmatch', 'regexec'))
     if foreign:
         bad += 1
         chk.add(Finding('C02.alg-names', 'libjwt/jwt.c', 'jwt_str_alg', 'inexact-compare[%s]' % ','.join(foreign),
